@@ -6,6 +6,8 @@ Exit codes (DESIGN 2.6): 0 = held on everything explored (possibly KNOWN-FINDING
 from __future__ import annotations
 
 import concurrent.futures as cf
+import contextlib
+import io
 import faulthandler
 import importlib
 import json
@@ -35,8 +37,7 @@ def machine(prop: str):
     return importlib.import_module(MACHINES[prop])
 
 
-class RunTimeout(Exception):
-    pass
+from .oracle import RunTimeout  # noqa: E402
 
 
 def _alarm(signum, frame):
@@ -53,7 +54,8 @@ def run_one(prop: str, seed: int, tier: str, cap: int) -> dict:
     signal.alarm(cap)
     try:
         cfg = m.generate(seed, tier)
-        res = m.execute(cfg)
+        with contextlib.redirect_stdout(io.StringIO()):     # xeofs.multi.CCA print()s warnings
+            res = m.execute(cfg)
         out = res.brief()
         out["nontrivial"] = bool(m.nontrivial(out))
         out["sample"] = {"seed": seed, "spec": cfg.get("spec"), "ops": [_short(o) for o in cfg.get("ops", [])][:30]}
@@ -123,13 +125,36 @@ def batch(prop: str, tier: str, batch_seed: int, *, workers: int | None = None, 
         if r.get("harness_error"):
             harness_errors.append(f"seed {r['seed']}: {r['harness_error']}")
 
-    # ---- violations: minimise, write replay, verify replay, classify ----------------------------
+    # ---- known findings: replay each committed replay file first (deterministic re-detection) --------
+    exit_code = 0
+    seen_known: set[str] = set()
+    for k in known:
+        if k.get("status") != "known" or k.get("property") != prop or not k.get("replay"):
+            continue
+        path = os.path.join(VERIF, k["replay"])
+        try:
+            got, rec = minimise.replay_quiet(path)
+        except Exception as e:  # noqa: BLE001
+            harness_errors.append(f"known finding {k['id']}: replay failed: {type(e).__name__}: {e}")
+            continue
+        if got is not None and findings.match([k], {"violation": got, "config": rec["config"], "history": rec.get("history", "")}):
+            seen_known.add(k["id"])
+            print(f"KNOWN-FINDING: property={prop} {k['what']} [{k['id']}] replay={path}")
+        else:
+            print(f"NOTE: known finding {k['id']} no longer reproduces from {path} (fixed? then mark it fixed in known_findings.json)")
+
+    # ---- violations: classify, minimise, write replay, verify replay ---------------------------------
     viol_runs = [r for r in results if r["violations"]]
     viol_runs.sort(key=lambda r: r["seed"])
     by_sig: dict[str, dict] = {}
+    known_hits = []
     for r in viol_runs:
-        sig = r["violations"][0]["signature"]
-        by_sig.setdefault(sig, r)
+        v = r["violations"][0]
+        hit = findings.match(known, {"violation": v, "config": r["config"], "history": ""})
+        if hit is not None:          # a listed finding met again by the random search: not reported twice
+            known_hits.append(hit["id"])
+            continue
+        by_sig.setdefault(v["signature"], r)
     reported = []
     t_min = time.time()
     for sig, r in sorted(by_sig.items())[:MAX_REPORTED]:
@@ -141,21 +166,13 @@ def batch(prop: str, tier: str, batch_seed: int, *, workers: int | None = None, 
                                               budget=max(20, tcfg["minimise_budget"] / max(1, min(len(by_sig), MAX_MINIMISED))),
                                               workers=workers)
         reported.append(rec)
-    exit_code = 0
-    known_hits = []
     new_viol = []
     for rec in reported:
         hit = findings.match(known, rec)
         if hit is not None:
-            known_hits.append((hit, rec))
+            known_hits.append(hit["id"])
         else:
             new_viol.append(rec)
-    seen_known = set()
-    for hit, rec in known_hits:
-        if hit["id"] in seen_known:
-            continue
-        seen_known.add(hit["id"])
-        print(f"KNOWN-FINDING: property={prop} {hit['what']} [{hit['id']}] replay={rec['path']}")
     for rec in new_viol:
         ok = minimise.verify_replay(rec["path"])
         if not ok:
@@ -168,13 +185,13 @@ def batch(prop: str, tier: str, batch_seed: int, *, workers: int | None = None, 
     # ---- evidence ------------------------------------------------------------------------------------
     from . import evidence
     evidence.write(prop, tier, batch_seed, results, search_wall=search_wall, total_wall=time.time() - t_start,
-                   n_violations=len(new_viol), known_hits=[h["id"] for h, _ in known_hits],
+                   n_violations=len(new_viol), known_hits=sorted(seen_known | set(known_hits)),
                    harness_errors=harness_errors, workers=workers)
     if not quiet:
         n = len(results)
         nt = sum(1 for r in results if r.get("nontrivial"))
         print(f"[{prop} {tier}] seed={batch_seed} runs={n} nontrivial={nt} wall={time.time() - t_start:.1f}s "
-              f"violating_runs={len(viol_runs)} distinct_signatures={len(by_sig)} known={len(seen_known)} "
+              f"violating_runs={len(viol_runs)} distinct_signatures={len(by_sig)} known={len(seen_known | set(known_hits))} "
               f"new={len(new_viol)} harness_errors={len(harness_errors)}")
     if harness_errors:
         for h in harness_errors[:10]:
